@@ -23,12 +23,24 @@ func lexemeKey(kind reflex.Kind, text string) string {
 	if kind == reflex.Str && len(text) >= 2 {
 		return "str:" + jsstr.Meaning(text[1:len(text)-1]) // quote style and escape spelling aside: the same value
 	}
+	if kind == reflex.Num {
+		return "num:" + jsstr.NumMeaning(text)
+	}
+	if kind == reflex.Tpl && len(text) >= 2 {
+		return "tpl:" + jsstr.TplMeaning(text[1:len(text)-1])
+	}
 	return text
 }
 
 func genTokKey(t *gen.Tok) string {
 	if t.Kind == gen.TStr && len(t.Text) >= 2 {
 		return "str:" + jsstr.Meaning(t.Text[1:len(t.Text)-1])
+	}
+	if t.Kind == gen.TNum {
+		return "num:" + jsstr.NumMeaning(t.Text)
+	}
+	if t.Kind == gen.TTpl && len(t.Text) >= 2 {
+		return "tpl:" + jsstr.TplMeaning(t.Text[1:len(t.Text)-1])
 	}
 	return t.Text
 }
